@@ -19,12 +19,34 @@ CORPORA = {
     "efi": dict(model="MC_Info", cfg="MC_Efi", quick=dict(MaxD=56, LCap=64), thorough=dict(MaxD=128, LCap=200), profiles=DEV_REL, place="both"),
     "elf": dict(model="MC_Info", cfg="MC_Elf", quick=dict(MaxN=3), thorough=dict(MaxN=4, ElfSizes="{0, 1, 8, 24, 39, 40, 41, 48, 63, 64, 65, 72, 128}", ElfRots="{0, 3, 5, 7}"),
                 profiles=DEV_REL, place="both"),
+    "hload": dict(model="MC_Header", cfg="MC_HLoad", quick=dict(MaxLen=64), thorough=dict(MaxLen=160), profiles=DEV_REL, place="both"),
+    "hwalk": dict(model="MC_Header", cfg="MC_HWalk", quick=dict(MaxL=32), thorough=dict(MaxL=48), profiles=DEV_REL, place="both"),
+    "hfields": dict(model="MC_Header", cfg="MC_HFields", quick={}, thorough={}, profiles=DEV_REL, place="both"),
+    "hgetters": dict(model="MC_Header", cfg="MC_HGetters", quick=dict(MaxTags=3), thorough=dict(MaxTags=4), profiles=DEV_REL, place="end"),
+    "hdst": dict(model="MC_Header", cfg="MC_HDst", quick={}, thorough={}, profiles=DEV_REL, place="both"),
+    "find": dict(model="MC_Header", cfg="MC_Find", quick={}, thorough=dict(
+                     FindLens="{0, 1, 3, 4, 7, 8, 11, 12, 15, 16, 20, 24, 32, 64, 8176, 8180, 8184, 8188, 8191, 8192, 8193, 8196, 8200, 8204, 8208, 16384}",
+                     FindPos="{0, 1, 2, 4, 7, 8, 12, 16, 24, 8168, 8176, 8180, 8184, 8185, 8188, 8189, 8190, 8191, 8192, 8196, 8200, 8208}"),
+                 profiles=DEV_REL, place="both"),
+    "cks": dict(model="MC_Header", cfg="MC_Cks", quick={}, thorough={}, profiles=DEV_REL, place="end"),
     "load": dict(model="MC_Load", quick=dict(MaxT=72), thorough=dict(MaxT=160), profiles=DEV_REL, place="both"),
     "walk": dict(model="MC_Walk", quick=dict(MaxT=32), thorough=dict(MaxT=40), profiles=DEV_REL, place="both"),
 }
 
 # property -> list of corpus names; nontrivial rule used for evidence
 CHECKS = {
+    "C09": dict(corpora=["hwalk", "hdst", "hfields", "hgetters", "hload"],
+                rule="all lazily chosen header-tag sequences (4 type/flag pairs, sizes 0..remaining+9), every header-tag kind at every "
+                     "declared size 0..40, conformant tags; every call checked for crash/hang and extents inside the declared header"),
+    "C10": dict(corpora=["hload", "cks"],
+                rule="all (length 0..MaxLen, magic right/one-bit-off/zero, checksum right/+1/-1/zero, both architectures) + null; "
+                     "calc_checksum on 54 boundary (magic, arch, length) triples judged on 16-bit limbs"),
+    "C11": dict(corpora=["hfields", "hgetters", "hwalk"],
+                rule="every header-tag kind conformant x 2 fills x 2 positions x 2 architectures, every accessor; all tag sequences "
+                     "<= MaxTags over 4 kinds; all lazily chosen walks"),
+    "C13": dict(corpora=["find"],
+                rule="structural buffers: all (buffer length, magic position or none, stored header length) combinations around the "
+                     "8192 window, a later second magic, misaligned buffers"),
     "C18": dict(corpora=["efi"],
                 rule="all (descriptor size 0..MaxD, version 0..2, map length 0..min(3d+9, LCap)); each with the environment plan "
                      "create / len / size_hint / next past the naive count / clone / Debug"),
@@ -37,7 +59,7 @@ CHECKS = {
     "C04": dict(corpora=["fields", "getters", "fb"],
                 rule="fields: every kind at its conformant size x 2 marker fills x 2 positions, every accessor; "
                      "getters: all sequences of <= MaxTags tags over 6 kinds (duplicates use different fills); fb: all 256 type bytes"),
-    "C05": dict(corpora=["dst", "fb"],
+    "C05": dict(corpora=["dst", "fb", "hdst"],
                 rule="every variable-length kind x every declared size 0..base+3*elem+DstExtra and three sizes beyond the region, "
                      "marker bytes in padding and in the neighbouring tag"),
     "C02": dict(corpora=["load"],
